@@ -6,9 +6,15 @@ TEXT = {
  'C02': ('Intel and AT&T spellings (plus the 15 boundary immediates of the property at the operand width) are assembled by the real asm/asm_att; EVERY candidate is decoded by the independent spec decoder and must be the requested instruction with its full length', 'bounded run-time contract on asm/asm_att: forall c in asm(line(A)): spec_decode(c) == (len(c), A); the numeric helper contracts of DESIGN 5/C02 (check_imm_size, ad_to_generic) are not proved'),
  'C03': ('for every candidate c of asm(line(A)): dis(c) accepts, consumes len(c), and c in asm(str(dis(c))); for every enumerated byte string that GNU as reproduces from the reference spelling (canonical): b in asm(str(dis(b)))', 'bounded fixpoint contract over generated lines and canonical byte strings; canonicity is decided by executing GNU as on the spec rendering, as the property defines it'),
  'C09': ('for every enumerated canonical byte string: b in asm(str(i)) and b in asm_att(att(i)); when no raw relative displacement or absolute numeric memory operand is involved, both renderings are given to the real GNU as (--32, Intel and AT&T mode) and its output must spec-decode to the same instruction', 'bounded; GNU as is an external function executed for real (batched), its answer compared through the spec decoder'),
- 'C19': ('for every generated line: upper-case registers, lower-case size keywords, extra blanks/tabs, hexadecimal and signed numbers, index-first and displacement-first term order, disp[reg] form, st(0) for st, and the AT&T transliteration must yield the same SET of candidates', 'bounded metamorphic contract on asm/asm_att; the term-algebra proofs of DESIGN 5/C19 (dict_add/dict_sub) are not claimed'),
+ 'C19': ('for every generated line: upper-case registers, lower-case size keywords, extra blanks/tabs, hexadecimal and signed numbers, index-first and displacement-first term order, disp[reg] form, st(0) for st, and the AT&T transliteration must yield the same SET of candidates', 'bounded metamorphic contract on asm/asm_att; the term algebra dict_add/dict_sub/dict_mul IS verified from its AST for all integer coefficients over every key shape (SMT-A, checks/C19smt.py)'),
 }
+def _smt(run):
+    from checks import C19smt
+    C19smt.ob_smt(run)
+
 if __name__ == '__main__':
     sys.exit(asmfam.run_family('C19', sys.argv[1:], 'other', RULE + '; ' + TEXT['C19'][0], TEXT['C19'][1],
                                ['specs/x86dec.py (reference disassembler)', 'bounded/asmgen.py printers (audited against GNU as: 16475 of 16878 generated lines assemble to an encoding of the intended instruction)'] + (['/usr/bin/as (GNU assembler, executed)'] if 'C19' in ('C03', 'C09') else []),
-                               ['MMX/SSE, relative branches and far pointers are outside the generator', 'lines the assembler rejects with ValueError are not constrained']))
+                               ['MMX/SSE, relative branches and far pointers are outside the generator', 'lines the assembler rejects with ValueError are not constrained',
+                                'term algebra proof: key sets bounded to {eax, ebx, imm, symb{s}, symb{s,t}} per operand; arg2txt (spelling memo) is an opaque callee that may raise ValueError; size/ad/txt keys are outside the abstract view'],
+                               extra=_smt))
